@@ -126,7 +126,7 @@ def run(ctx):
         ok = s["writes"] == {(1, (m.f_trading,))} and len(ws) == 1 and ws[0].val[0] == "const" and ws[0].val[3] == val and not ws[0].guards
         ctx.check(ok, "toggle", f.name, ctx.loc(f), "%s writes only trading := %s" % (f.name, "true" if val else "false"),
                   "%s writes %s / %s" % (f.name, sorted(s["writes"]), "; ".join(w.text() for w in ws)))
-    for f in ctx.prog.fns.values():
+    for f in ctx.prog.units():
         if f.path in (en.path, dis.path):
             continue
         for w in m.q(f).writes(field=m.f_trading, owner="OrderBook"):
